@@ -37,6 +37,9 @@ func PadPKCS7(buf []byte, size int) ([]byte, error) {
 	bufLen := len(buf)
 	padLen := size - bufLen%size
 	padding := bytes.Repeat([]byte{byte(padLen)}, padLen)
+	// Cap the capacity so that append always allocates: the caller's buffer,
+	// including the spare capacity behind its length, must not be written to
+	buf = buf[:bufLen:bufLen]
 	return append(buf, padding...), nil
 }
 
